@@ -28,6 +28,7 @@ type GenCfg struct {
 	PTestSat           float64 // per test: parameter chosen so that the witness satisfies it
 	POpts              float64 // per test: IssueCode / IssuePath / Message options
 	PEmbed             float64 // per nested struct field: the destination embeds it (anonymous field)
+	PreferDeep         bool    // below the root mostly containers: deep nestings instead of bushy ones
 	NoMsgOpts          bool    // never the Message option (every issue then reaches the execution's formatter)
 	PZogTag            float64 // per field: zog tag
 	NoCustom           bool
@@ -875,6 +876,9 @@ func (g *Gen) pickKind(depth int, root bool) string {
 	menu := []string{"leaf", KStruct, "leaf", KSlice, "leaf", KPtr, "leaf", KStruct, KSlice, KCustom, "leaf"}
 	if root {
 		menu = []string{KStruct, KSlice, KStruct, KPtr, "leaf", KStruct, KSlice, "leaf", KCustom, KStruct}
+	}
+	if g.Cfg.PreferDeep && !root && depth >= 2 {
+		menu = []string{KStruct, KSlice, KStruct, KSlice, KPtr, "leaf", KStruct, KSlice} // mostly containers until the depth runs out
 	}
 	k := pick(g, menu, "kind")
 	if g.Cfg.NoNestedStructs && g.sdepth > 0 && (k == KStruct || k == KPtr) {
